@@ -6,6 +6,7 @@ import FtProofs.Lemmas.TrafficBasic
 import FtProofs.Lemmas.TrafficTools
 import FtProofs.Lemmas.TrafficBuffet
 import FtProofs.Lemmas.TrafficSched
+import FtProofs.Lemmas.TrafficCache
 set_option linter.unusedSectionVars false
 set_option linter.unusedSimpArgs false
 set_option linter.unusedVariables false
@@ -403,6 +404,79 @@ theorem line_granular (mask : List Bool) (epl : Nat) (shape : Option Nat) :
 
 example : LineEquiv 4 (some 6) [⟨[0], [1], 1, true⟩, ⟨[1], [7], 7, true⟩] [⟨[0], [1], 3, true⟩, ⟨[1], [7], 6, true⟩] := by
   simp [LineEquiv]
+
+/-! ## the cache charges what a furthest-next-use policy with bypass incurs -/
+
+theorem snextOk_of_B : ∀ {xs : Sched}, schedNextOkB xs = true → SNextOk xs
+  | [], _ => trivial
+  | x :: rest, h => by
+    simp only [schedNextOkB, Bool.and_eq_true, decide_eq_true_eq] at h
+    exact ⟨h.1, snextOk_of_B h.2⟩
+
+theorem sord_of_B : ∀ {xs : Sched}, schedOrdB xs = true → SOrd xs
+  | [], _ => trivial
+  | x :: rest, h => by
+    simp only [schedOrdB, Bool.and_eq_true, List.all_eq_true, Bool.not_eq_true', Bool.or_eq_true,
+      Bool.and_eq_false_imp, decide_eq_true_eq, decide_eq_false_iff_not] at h
+    refine ⟨?_, sord_of_B h.2⟩
+    intro y hy
+    obtain ⟨h1, h2⟩ := h.1 y hy
+    refine ⟨h1, ?_⟩
+    rintro ⟨k1, k2⟩
+    rcases h2 with h2 | h2
+    · exact absurd k2 (h2 k1)
+    · exact h2
+
+/-- `cacheTraffic` = the reference simulator (resident set; on a miss with a later use the line is
+    brought in if there is room or if some resident line is needed later than it, evicting the
+    resident line whose next use is furthest; "next use" measured by position in the access
+    sequence).  PARTIAL: proved for consumption sequences `xs` (all bindings interleaved) that
+    (1) carry correct next-use stamps, (2) are ordered as `ListElem` compares and have no stamp tie
+    between different lines of a binding, (3) contain no staging (pinned) access.  Outside (2) the
+    implementation can raise AssertionError or evict suboptimally, outside (3) it can raise
+    AssertionError (known findings); there the correspondence still compares it with the reference. -/
+theorem cache_eq_reference_partial (ls : Nat) (cap : Option Nat) (xs : Sched)
+    (h1 : schedNextOkB xs = true) (h2 : schedOrdB xs = true)
+    (h3 : ∀ x ∈ xs, x.2.staging = false) :
+    (xs.foldl (cstep ls cap) {}).failed = none ∧
+    (xs.foldl (cstep ls cap) {}).reads = (refCache ls cap {} xs).reads ∧
+    (xs.foldl (cstep ls cap) {}).writes = (refCache ls cap {} xs).writes ∧
+    (xs.foldl (cstep ls cap) {}).over = (refCache ls cap {} xs).over := by
+  have key : ∀ (xs : Sched) (s : CState) (r : RState), CRel ls s r xs → SNextOk xs → SOrd xs →
+      (∀ x ∈ xs, x.2.staging = false) →
+      CRel ls (xs.foldl (cstep ls cap) s) (refCache ls cap r xs) [] := by
+    intro xs
+    induction xs with
+    | nil => intro s r h _ _ _; exact h
+    | cons x rest ih =>
+      intro s r h hn ho hs
+      simp only [List.foldl_cons, refCache]
+      apply ih _ _ _ hn.2 ho.2 (fun y hy => hs y (List.mem_cons_of_mem _ hy))
+      have hstep : cstep ls cap s x = cCore ls cap (cCharge ls s x) x := by
+        simp [cstep, h.ok]
+      rw [hstep]
+      exact crel_core (crel_charge h) hn ho (hs x List.mem_cons_self)
+  have hinit : CRel ls {} {} xs := by
+    refine ⟨rfl, rfl, ?_, ?_, ?_, ?_, ?_, ?_, rfl, rfl, rfl, rfl⟩
+    · intro k; rfl
+    · exact List.nodup_nil
+    · intro en hen; cases hen
+    · intro en hen; cases hen
+    · exact List.Pairwise.nil
+    · intro e; constructor
+      · intro he; cases he
+      · rintro ⟨en, hen, _⟩; cases hen
+  have := key xs {} {} hinit (snextOk_of_B h1) (sord_of_B h2) h3
+  exact ⟨this.ok, this.reads, this.writes, this.over⟩
+
+/-- non-vacuity: capacity of one line, X Y X Y X without ties: the second line is bypassed -/
+example :
+    let t : List Acc := accsOf [true] [true] 1 none
+      [⟨[0], [0], 0, false⟩, ⟨[1], [1], 1, false⟩, ⟨[2], [0], 0, false⟩, ⟨[3], [1], 1, false⟩, ⟨[4], [0], 0, false⟩]
+    let xs := schedule 1 [t]
+    schedNextOkB xs = true ∧ schedOrdB xs = true ∧ xs.all (fun x => !x.2.staging) = true ∧
+    getAt (xs.foldl (cstep 32 (some 32)) {}).reads 0 = 96 ∧
+    getAt (refCache 32 (some 32) {} xs).reads 0 = 96 := by decide
 
 end Traffic
 end Ft
